@@ -100,10 +100,10 @@ def run(ctx, crate):
         for s in outs:
             gs = s.guard or []
             sevs = set()
-            for c in gs:
+            for c in (core.block_guard_atoms(b, s.bb) or []):
                 for a in c:
-                    if a.startswith("is(") and a.endswith(")") and "; " in a and ("VulnerabilitySeverity" in a or "φ" in a):
-                        sevs.add(a[:-1].rsplit("; ", 1)[1])
+                    if a[0] == "isin" and T.calls_in(a[1], R.SECTION_FNS["vulnerabilities"].rsplit("::", 1)[-1]):
+                        sevs |= set(a[2])
             head = R.lit(s.args[0])
             for sv in sevs:
                 sev_bufs[sv] = s.args[0]
